@@ -3,6 +3,33 @@
 import json
 
 CLAIMED = {
+ "C04": dict(
+   text="Machine-checked proof (Coq, classical reals) for ALL real degrees, levels in (0,1) and pairs (y,z): the per-observation score functions, "
+        "as regenerated from scoring.py by the fail-closed translator on every run (gen/Gen_scoring.v), raise ValueError exactly outside the documented domain, "
+        "are defined (no division by zero / log or power outside its domain) inside it, are >= 0, are 0 at y=z, and are order-sensitive; log loss on y in [0,1], z in (0,1); "
+        "named classes are members of the families; vector calls lift per-observation results.",
+   note="Trusted: the translator (validated on every run by a round trip: Python closures printed from the same IR vs the real functions on ~58k structured points, "
+        "exceptions and nan/inf classes included) and lib/NumpyR.v's reading of numpy primitives. Float rounding not modelled. Axioms: the standard library's real-number axioms only.",
+   technique="Coq proof over R about code translated from source on every run + bridge lemmas + translator round trip", ref="4 C04"),
+ "C05": dict(
+   text="Machine-checked proof (Coq, classical reals): for every finite positively weighted sample and every admissible constant c, the total (hence average) score at the sample's "
+        "own functional (characterised by its first-order condition: weighted identification sum zero, resp. the two one-sided quantile inequalities) is <= the score at c, "
+        "for all Bregman-type scores of every degree (incl. squared error, Poisson, Gamma), their asymmetric versions, log loss, and all quantile-type scores (incl. pinball). "
+        "Values are tied to the generated score_per_obs by hes_val_is_gen / hqs_val_is_gen; __call__ is checked to be np.average of score_per_obs by the translator.",
+   note="As C04. The aggregate __call__ is compared with the weighted average of score_per_obs on random int/float inputs with fractional weights in every run.",
+   technique="Coq proof over R (sub-gradient inequalities summed over the sample) + translation from source + round trip", ref="4 C05"),
+ "C08": dict(
+   text="Machine-checked proof (Coq) about identification_function translated in full from identification.py on every run: non-decreasing in the prediction for every functional and level, "
+        "guards, aliases (median = quantile 1/2, expectile 1/2 = mean), closed forms; per rational sample: weighted sum zero at the weighted mean and at the exact weighted expectile, "
+        "quantile sum = count_le - n*level, negative below the lower empirical quantile and non-negative from it on.",
+   note="As C04; sample theorems are over rational samples (every float is one) transported to R.",
+   technique="Coq proof (R per observation, Q->R per sample) + translation from source + round trip", ref="4 C08"),
+ "C14": dict(
+   text="Machine-checked proof (Coq, classical reals) about the generated score functions: S(cy,cz) = c^degree * S(y,z) for all c>0, all real degrees, all accepted pairs, both families; "
+        "SquaredError/PoissonDeviance/GammaDeviance/PinballLoss are the family members with the constructor arguments read from source, with their textbook closed forms; level 1/2 reduces to the symmetric score.",
+   note="Partial: 'closed forms at degrees 0 and 1 are the limits of the general formula' is stated but only proved where proofs/ScoreLimits.v says so (see props/C14.v header). Otherwise as C04.",
+   technique="Coq proof over R + translation from source + round trip", ref="4 C14"),
+
  "C01": dict(
    text="Machine-checked proof (Coq) about the executable model of isotonic_regression(functional='mean') (model/Pava.v, model/Isotonic.v): "
         "for every non-empty rational y, every strictly positive w (or none), both directions: totality, monotonicity, optimality against all REAL "
